@@ -56,6 +56,18 @@ claim('C10',
       'TLA+ spec (Embed.tla) + TLC exhaustive/simulation + differential replay (nested vs TLC-flattened vs spec)',
       'DESIGN.md 3/C10')
 
+claim('C11',
+      'TLC model-checks AppHistory.tla: a world of applications and shared Route objects under histories of operations (constructor '
+      'with an initial list, add of a Route object / tuple / sub-application at an index; failing operations: unresolved dependency, '
+      'name conflict, invalid pattern, at any position of a multi-route entry): action properties FailureIsNoOp, OthersUntouched, '
+      'Contiguous and invariant TablesSound over all histories within the bound. Bound to the code: TLC-generated histories of 8 '
+      'operations over 3 applications are replayed against real objects; after EVERY operation, for EVERY live application, '
+      'app.routes (Route identity + full pattern) and a probe response per entry are compared with the tables TLC computed; '
+      'shared Route objects are snapshotted and must not change; failing operations must raise, others must not.',
+      'Trusted: TLC; probe matching of literal/single-binding patterns recomputed from the spec table; negative indices excluded.',
+      'TLA+ spec (AppHistory.tla) + TLC exhaustive (action properties) + step-by-step replay of TLC-generated histories',
+      'DESIGN.md 3/C11')
+
 claim('C19',
       'TLC model-checks Reservoir.tla (algorithm shaped like Reservoir.add/resize refines the property relation; '
       'Bounded/OnlyAdded/NeverRaises/ExactCount in every reachable state, all replacement indices, all resize points) '
